@@ -16,6 +16,12 @@ error) and the withheld channel is a narrow GaussianART / BayesianART: no filler
 is the concatenation of the channel weights, partial-channel predict is the arg-max over the CURRENT channel weights whatever
 the filler, predict_regression the CURRENT target-channel centre of that category.
 
+`container_spellings`: the withheld / target subset handed over as an index container other than a list (numpy index
+arrays of every integer dtype, np.flatnonzero / np.where of a channel mask, np.arange, tuples, ranges, sets, dict key views,
+lists of numpy integers, 0-d arrays), every subset incl. the one-element set {0} as np.array([0]) (non-empty but falsy):
+predict / predict_regression / join / split / prepare / restore give what the list spelling gives (filler independence,
+arg-max of the supplied channels, round trips); a non-iterable spelling may be rejected.
+
 Tie: `artdrv fusion hist … # pred X SKIP` (model `predictSkip`), `fusion regr`
 (`predictRegression`), `fusion joinsplit` and `fusion restore` (`restoreRow`) on exact
 classes and grid data, for every subset of channels (suffixes or not) and every spelling.
@@ -276,6 +282,246 @@ def shared_selectors(ctx, G):
                                   f"of {ks[:mi]} channels: raised {e!r}", rp)
         if not rewritten:
             cov.hit("shared-selector:caller-list-intact")
+
+
+# ------------------------------------------------------------------ the subset written as an index CONTAINER other than a list
+
+INT_DTYPES = [np.int64, np.int64, np.intp, np.int32, np.int16, np.int8]
+
+
+def index_spellings(r, S, k):
+    """Spellings of the channel subset S (sorted, of k channels) as index containers a caller naturally holds instead of a
+    list: numpy index arrays (np.array of any integer dtype, np.flatnonzero / np.where of a channel mask, np.arange),
+    tuples, ranges, sets, lists of numpy integers, dict key views; for a one-element subset also the 0-d array.
+    Returns [(kind, factory, iterable)]: factory() builds a FRESH object per call; `iterable` False marks the spellings
+    that are not iterable containers (0-d arrays), which a library may reject."""
+    out = []
+    mixed = spell(r, S, k)                                   # positive / negative mix, shuffled
+    pos = list(S)
+    neg = [j - k for j in S]
+    dt = r.choice(INT_DTYPES)
+    out.append((f"ndarray[{np.dtype(dt).name}]", lambda v=pos, dt=dt: np.array(v, dtype=dt), True))
+    dt2 = r.choice(INT_DTYPES)
+    out.append((f"ndarray[{np.dtype(dt2).name}](mixed-signs)", lambda v=mixed, dt=dt2: np.array(v, dtype=dt), True))
+    mask = np.array([j in S for j in range(k)])
+    more = [("flatnonzero(mask)", lambda m=mask: np.flatnonzero(m), True),
+            ("where(mask)[0]", lambda m=mask: np.where(m)[0], True),
+            ("tuple", lambda v=mixed: tuple(v), True),
+            ("tuple(positive)", lambda v=pos: tuple(v), True),
+            ("list-of-np.int64", lambda v=mixed: [np.int64(t) for t in v], True),
+            ("ndarray(negative)", lambda v=neg: np.array(v, dtype=np.int64), True),
+            ("set", lambda v=mixed: set(v), True),
+            ("frozenset", lambda v=pos: frozenset(v), True),
+            ("dict-keys", lambda v=mixed: dict.fromkeys(v).keys(), True),
+            ("ndarray[uint8]", lambda v=pos: np.array(v, dtype=np.uint8), True)]
+    if S and S == list(range(S[0], S[-1] + 1)):              # a run of channels
+        more += [("arange", lambda a=S[0], b=S[-1] + 1: np.arange(a, b), True),
+                 ("range", lambda a=S[0], b=S[-1] + 1: range(a, b), True),
+                 ("arange(negative)", lambda a=S[0] - k, b=S[-1] + 1 - k: np.arange(a, b), True),
+                 ("range(negative)", lambda a=S[0] - k, b=S[-1] + 1 - k: range(a, b), True)]
+    if not S:
+        more += [("range(0)", lambda: range(0), True), ("arange(0)", lambda: np.arange(0), True)]
+    if len(S) == 1:
+        more += [("0-d-array", lambda v=r.choice([S[0], S[0] - k]): np.array(v), False)]
+    out += r.sample(more, min(len(more), 3))
+    return out
+
+
+def container_spellings(ctx, G):
+    """The withheld / target channel subset handed over as an index container other than a list (see index_spellings):
+    what np.flatnonzero / np.where / np.arange of a channel mask give, a tuple, a range, a set ...  The property
+    quantifies over the SUBSET; its spelling is the caller's business.  For every subset of a trained model's channels and
+    several spellings of it, with L = the same indices as a plain list of Python ints in the container's own order:
+      * predict(X, skip_channels=spelling) is the same for two valid fillers in the withheld columns, equals
+        predict(X, skip_channels=L) and the first arg-max of the gamma-weighted activations of the supplied channels;
+      * predict_regression(X, target_channels=spelling) is predict_regression(X, target_channels=L): the target-channel
+        centres of that category (an array for one target, a list of arrays for several);
+      * join_channel_data / split_channel_data with the spelling are mutually inverse on the supplied channels, put the
+        supplied channels at their own columns, and are interchangeable with the list spelling;
+      * prepare_data / restore_data likewise.
+    A spelling that is an iterable container of integers must be accepted wherever the list is; a spelling that is not
+    iterable (0-d array) may be rejected with an exception -- then nothing is checked for it -- but when the call returns,
+    it must mean the subset."""
+    cov = ctx.cov
+    for i in range(G):
+        r = gen.rng_for(ctx.seed, "C11-container", i)
+        cls, ds, sp, dims, gam = gen_channels(r, 2, 4)
+        k = len(cls)
+        floats = r.random() < 0.3
+        n = limit_n(sp, r.randint(4, 12))
+        Xc = channel_data(r, cls, ds, n, floats=floats)
+        X = np.hstack(Xc)
+        spec = fusion_spec(sp, dims, gam)
+        off = np.cumsum([0] + dims)
+        rep = {"spec": spec, "classes": cls, "X": X}
+        try:
+            f = make(spec)
+            set_identity_bounds(f, cls, ds)
+            with quiet():
+                f.fit(X)
+        except Exception as e:
+            ctx.issue("violation", f"FusionART.fit:{exc_enum(e)}", f"fit raised {e!r}", rep)
+            continue
+        ncat = len(f.W)
+        nq = r.randint(2, 5)
+        Qc = [np.vstack([A[[r.randrange(n)]] if r.random() < 0.5 else B[[j]] for j in range(nq)])
+              for A, B in zip(Xc, channel_data(r, cls, ds, nq, floats=floats))]
+        Q = np.hstack(Qc)
+        centres = [m.get_cluster_centers() for m in f.modules]
+        raw = []
+        for j in range(k):
+            if cls[j] == "ART1":
+                base, lo, sc = gen.binary_rows(r, 3, ds[j], allow_zero=True), 0.0, 1.0
+            else:
+                base = gen.grid_rows(r, 3, ds[j], style="uniform")
+                lo, sc = r.choice([0.0, -2.0, 10.0]), r.choice([1.0, 4.0, 0.5])
+            base[0, :] = 0.0
+            base[1, :] = 1.0
+            raw.append(lo + sc * base)
+        for S in sorted(subsets(k), key=lambda S_: (not 0 < len(S_) < k, len(S_))):   # proper non-empty subsets first
+            ref = None
+            fill = []
+            for t in range(2):
+                Qf = Q.copy()
+                for j in S:
+                    Qf[:, off[j]:off[j + 1]] = ((1.0 if cls[j] == "ART1" else 0.5) if t == 0
+                                                else valid_filler(r, cls[j], ds[j], nq, True))
+                fill.append(Qf)
+            kept = [j for j in range(k) if j not in S]
+            data = [Qc[j] for j in kept]
+            for kind, mk, iterable in index_spellings(r, S, k):
+                L = [int(t) for t in mk()] if iterable else [int(mk())]
+                rp = dict(rep, query=Q, own_channels=S, spelling={"kind": kind, "repr": repr(mk()), "as_list": L},
+                          fillers=fill)
+                what = f"channels {S} of {k} given as {kind} {mk()!r} (as a list: {L})"
+                cov.case(("container", tuple(cls), str(sp), tuple(dims), tuple(gam), X.tobytes(), Q.tobytes(), tuple(S), kind,
+                          tuple(L)), ncat >= 2 and 0 < len(S) < k)
+                ckind = kind.split("[")[0].split("(")[0]
+                cov.hit(f"index-container:{ckind}")
+                try:
+                    if len(S) > 0 and not mk():
+                        cov.hit("index-container:non-empty-but-falsy")
+                except Exception:
+                    cov.hit("index-container:truth-value-undefined")
+                rejected = False
+
+                def call(entry, fn):
+                    """fn() with the container spelling; returns (ok, value).  An exception is a violation for an iterable
+                    container of integers (the list spelling of the same call has just succeeded), a rejection otherwise"""
+                    nonlocal rejected
+                    try:
+                        with quiet():
+                            return True, fn()
+                    except Exception as e:
+                        if iterable:
+                            ctx.issue("violation", f"FusionART.{entry}:index-container:{exc_enum(e)}",
+                                      f"{entry} with {what}: raised {e!r}; the list spelling is accepted", dict(rp, entry=entry))
+                        else:
+                            rejected = True
+                            cov.hit(f"index-container:{ckind}:rejected-by-{entry}({exc_enum(e)})")
+                        return False, None
+
+                # ---- predict
+                try:
+                    with quiet():
+                        y_L = [int(v) for v in f.predict(Q, skip_channels=list(L))]
+                        reg_L = f.predict_regression(Q, target_channels=list(L)) if S else None
+                except Exception:
+                    cov.hit("index-container:list-spelling-raises(case-left-out)")
+                    continue
+                if ref is None:
+                    ref = ref_argmax(f, Q, S, off)
+                ok0, p0 = call("predict", lambda: [int(v) for v in f.predict(fill[0], skip_channels=mk())])
+                ok1, p1 = call("predict", lambda: [int(v) for v in f.predict(fill[1], skip_channels=mk())]) if ok0 else (False, None)
+                if ok0 and ok1:
+                    if p0 != p1:
+                        ctx.issue("violation", "FusionART.predict:index-container:depends-on-skipped-columns",
+                                  f"{what}: labels {p0} / {p1} for two valid fillers in the withheld columns "
+                                  f"(skip_channels={L}: {y_L})", rp)
+                    elif p0 != y_L:
+                        ctx.issue("violation", "FusionART.predict:index-container:!=list-spelling",
+                                  f"{what}: labels {p0}, with skip_channels={L}: {y_L}", rp)
+                    elif any(b is not None and a != b for a, b in zip(p0, ref)):
+                        ctx.issue("violation", "FusionART.predict:index-container:not-argmax-of-remaining-channels",
+                                  f"{what}: labels {p0}, arg-max of the supplied channels {ref}", rp)
+                    else:
+                        cov.hit("index-container:predict-ok")
+                # ---- predict_regression
+                if S:
+                    okr_, out = call("predict_regression", lambda: f.predict_regression(fill[1], target_channels=mk()))
+                    if okr_:
+                        tn = [t + k if t < 0 else t for t in L]
+                        exp = [np.array([centres[j][c] for c in y_L]) for j in tn]
+                        if len(tn) == 1:
+                            good = (not isinstance(out, list) and not isinstance(reg_L, list)
+                                    and np.array_equal(np.asarray(out), np.asarray(reg_L), equal_nan=True)
+                                    and np.array_equal(np.asarray(out), exp[0], equal_nan=True))
+                        else:
+                            good = isinstance(out, list) and isinstance(reg_L, list) and len(out) == len(exp) == len(reg_L) and all(
+                                np.array_equal(np.asarray(a), b, equal_nan=True) and np.array_equal(np.asarray(a), np.asarray(c), equal_nan=True)
+                                for a, b, c in zip(out, exp, reg_L))
+                        if not good:
+                            ctx.issue("violation", "FusionART.predict_regression:index-container:!=list-spelling-target-centre",
+                                      f"targets: {what}: values differ from predict_regression(X, target_channels={L}) / the "
+                                      f"target-channel centres of the categories {y_L}", rp)
+                        else:
+                            cov.hit("index-container:regression-ok")
+                if not data:
+                    continue
+                # ---- join / split
+                try:
+                    with quiet():
+                        J_L = f.join_channel_data(data, skip_channels=list(L))
+                except Exception:
+                    cov.hit("index-container:list-spelling-raises(case-left-out)")
+                    continue
+                okj_, J = call("join_channel_data", lambda: f.join_channel_data(data, skip_channels=mk()))
+                if okj_:
+                    oks_, back = call("split_channel_data", lambda: f.split_channel_data(J, skip_channels=mk()))
+                    oks2_, back_L = call("split_channel_data", lambda: f.split_channel_data(J_L, skip_channels=mk())) if oks_ else (False, None)
+                    oks3_, J2 = call("join_channel_data", lambda: f.join_channel_data(
+                        f.split_channel_data(Q, skip_channels=mk()), skip_channels=mk())) if oks2_ else (False, None)
+                    if oks_ and oks2_ and oks3_:
+                        J = np.asarray(J)
+                        okj = J.shape == Q.shape and np.array_equal(J, np.asarray(J_L)) and all(
+                            np.all(J[:, off[j]:off[j + 1]] == 0.5) if j in S else np.array_equal(J[:, off[j]:off[j + 1]], Qc[j])
+                            for j in range(k))
+                        okj = okj and all(len(b_) == len(data) and all(np.array_equal(a, b) for a, b in zip(b_, data))
+                                          for b_ in (back, back_L))
+                        okj = okj and np.array_equal(np.asarray(J2), J)
+                        if not okj:
+                            ctx.issue("violation", "FusionART.join/split:index-container:not-inverse-on-supplied-channels",
+                                      f"{what}: join(data) has shape {J.shape} (query {Q.shape}) / differs from the join with "
+                                      f"skip_channels={L} / split(join(data)) returns {len(back)} block(s) for {len(data)} supplied "
+                                      f"or other values", rp)
+                        else:
+                            cov.hit("index-container:join-split-ok")
+                # ---- prepare / restore (fresh estimators: prepare_data fixes the column bounds)
+                g, g_L = make(spec), make(spec)
+                chd = [None if j in S else raw[j] for j in range(k)]
+                try:
+                    with quiet():
+                        P_L = g_L.prepare_data(list(chd), skip_channels=list(L))
+                        R_L = g_L.restore_data(P_L, skip_channels=list(L))
+                except Exception:
+                    cov.hit("index-container:list-spelling-raises(case-left-out)")
+                    continue
+                okp_, P = call("prepare_data", lambda: g.prepare_data(list(chd), skip_channels=mk()))
+                okq_, R = call("restore_data", lambda: g.restore_data(P, skip_channels=mk())) if okp_ else (False, None)
+                if okp_ and okq_:
+                    okp = np.shape(P) == np.shape(P_L) and np.array_equal(np.asarray(P), np.asarray(P_L), equal_nan=True)
+                    okp = okp and len(R) == len(kept) == len(R_L) and all(
+                        np.shape(a) == raw[j].shape and np.allclose(a, raw[j], rtol=1e-12, atol=1e-12)
+                        and np.array_equal(np.asarray(a), np.asarray(b), equal_nan=True) for a, b, j in zip(R, R_L, kept))
+                    if not okp:
+                        ctx.issue("violation", "FusionART.prepare/restore:index-container:not-inverse-on-supplied-channels",
+                                  f"{what}: prepare_data gives shape {np.shape(P)} (with skip_channels={L}: {np.shape(P_L)}) / "
+                                  f"restore_data returns {len(R)} block(s) for {len(kept)} supplied channels or other values",
+                                  dict(rp, raw=raw))
+                    else:
+                        cov.hit("index-container:prepare-restore-ok")
+                if rejected:
+                    cov.hit("index-container:non-iterable-spelling-rejected(nothing-checked)")
 
 
 # ------------------------------------------------------------------ inference under a strict floating-point error state
@@ -726,6 +972,9 @@ def run(ctx):
         "channel weights edited between predictions: the category count is unchanged and every new weight is one the module's "
         "class produces itself (new_weight / update of a valid row, another category's weight, shrink_clusters) and can "
         "evaluate (finite category_choice); an edit the library refuses leaves the clauses to the weights as they are",
+        "index containers other than a list: a re-iterable container of integers (ndarray, tuple, range, set, dict keys) names "
+        "the subset of its elements and must be accepted wherever the list of the same integers is; a spelling that is not "
+        "iterable (0-d array) may be rejected with an exception (then nothing is checked for it)",
     ]
     N = ctx.scale(300, 3000)
     nmax = ctx.scale(12, 40)
@@ -946,6 +1195,7 @@ def run(ctx):
         if i < 2:
             cov.sample({"classes": cls, "dims": dims, "gamma": gam, "ncat": ncat, "query_rows": nq})
     shared_selectors(ctx, ctx.scale(60, 600))
+    container_spellings(ctx, ctx.scale(30, 300))
     strict_fp_state(ctx, ctx.scale(60, 600))
     out_of_band_edits(ctx, ctx.scale(300, 3000))
     outs = run_driver(lines)
